@@ -41,7 +41,7 @@ const (
 	numWorkers   = 16
 	dropWait     = 60 * time.Millisecond
 	dropMargin   = 30 * time.Millisecond
-	longWait     = 2 * time.Second
+	longWait     = 5 * time.Second
 	eraBoundary  = int64(2085978496) // 2036-02-07T06:28:16Z, start of NTP era 1
 	maxThetaSecs = int64(60 * 365 * 86400)
 )
